@@ -109,6 +109,9 @@ func (c *Client) handleSearch() error {
 		var num uint32
 		if !c.dec.ExpectNumber(&num) {
 			return c.dec.Err()
+		} else if num == 0 {
+			// Would be interpreted as "*" in a number set
+			return fmt.Errorf("in nz-number: message numbers must be non-zero")
 		}
 		if cmd != nil {
 			switch all := cmd.data.All.(type) {
